@@ -40,3 +40,15 @@ func init() {
 			File2: fProto, Old2: "\t\tquality, err := NewQuality(msg.Qualities[i])\n", New2: "\t\tif msg.Qualities[i] == nil {\n\t\t\treturn errNilMsg\n\t\t}\n\t\tquality, err := NewQuality(msg.Qualities[i])\n"},
 	}
 }
+
+func init() {
+	variants["C16"] = append(variants["C16"],
+		variant{Name: "parent target parsed as a hex number instead of hex bytes", Kill: true, Rule: "C16-CODEC", File: fProto,
+			Old: "\ttargetBytes, err := hex.DecodeString(msg.ParentTarget)\n\tif err != nil {\n\t\treturn err\n\t}\n\tparentTarget := new(big.Int).SetBytes(targetBytes)\n",
+			New: "\tparentTarget, okT := new(big.Int).SetString(msg.ParentTarget, 16)\n\tif !okT {\n\t\treturn errNilMsg\n\t}\n"},
+		variant{Name: "size limit applied to size plus prefix length (wraps)", Kill: true, Rule: "C16-FRAME", File: fConn,
+			Old: "} else if size > conn.opts.maxRecvMsgSize {", New: "} else if size+uint32(len(msgSizeBytes)) > conn.opts.maxRecvMsgSize {"},
+		variant{Name: "size widened to 64 bits before the comparison", Kill: false, File: fConn,
+			Old: "} else if size > conn.opts.maxRecvMsgSize {", New: "} else if uint64(size) > uint64(conn.opts.maxRecvMsgSize) {"},
+	)
+}
